@@ -359,6 +359,26 @@ func (c *connectionRequest) checkServer(server RegisteredServer) (s ConnectionSt
 	p := c.player
 	p.mu.RLock()
 	defer p.mu.RUnlock()
+	return c.checkServerLocked(server)
+}
+
+// claimInFlight re-checks the server and, if the request may proceed, makes conn
+// the in-flight connection in the same critical section, so that two concurrent
+// requests can not both pass the check and both start an attempt.
+func (c *connectionRequest) claimInFlight(server RegisteredServer, conn *serverConnection) (s ConnectionStatus, ok bool) {
+	p := c.player
+	p.mu.Lock()
+	defer p.mu.Unlock()
+	if s, ok = c.checkServerLocked(server); !ok {
+		return s, false
+	}
+	p.connInFlight = conn
+	return 0, true
+}
+
+// checkServerLocked requires the player's mutex to be held.
+func (c *connectionRequest) checkServerLocked(server RegisteredServer) (s ConnectionStatus, ok bool) {
+	p := c.player
 	if p.connInFlight != nil || (p.connectedServer_ != nil &&
 		!p.connectedServer_.completedJoin.Load()) {
 		return InProgressConnectionStatus, false
@@ -400,7 +420,9 @@ func (c *connectionRequest) internalConnect(ctx context.Context) (result *connec
 	}
 
 	conn := newServerConnection(server, c.previousServer, c.player)
-	c.player.setInFlightConnection(conn)
+	if status, ok = c.claimInFlight(newDest, conn); !ok {
+		return plainConnectionResult(status, newDest), nil
+	}
 	defer c.resetIfInFlightIs(conn)
 	return conn.connect(ctx)
 }
